@@ -270,3 +270,28 @@ fn ws_ancestor_within(ix: &TreeIndex, mut id: usize, top: usize) -> bool {
         }
     }
 }
+
+include!(concat!(env!("OUT_DIR"), "/try_locate.rs"));
+
+/// `Locate::try_from(node)` for every node of the tree: must not panic and must agree with
+/// the span of the node's own leaves
+pub fn check_try_locate(ix: &TreeIndex) -> Result<usize, String> {
+    let mut n_checked = 0;
+    for n in &ix.nodes {
+        let got = crate::util::api::guarded(|| try_locate(&n.node)).map_err(|p| format!("Locate::try_from({} #{}) panicked: {}", n.kind, n.pre, p))?;
+        if n.first_leaf == n.leaf_end {
+            if got.is_ok() {
+                return Err(format!("Locate::try_from(leafless {}) returned {:?}", n.kind, got));
+            }
+            continue;
+        }
+        let first = ix.leaves[n.first_leaf].0;
+        let last = ix.leaves[n.leaf_end - 1].0;
+        let want = Locate { offset: first.offset, line: first.line, len: last.offset + last.len - first.offset };
+        if got != Ok(want) {
+            return Err(format!("Locate::try_from({} #{}) = {:?}, its leaves span {:?}", n.kind, n.pre, got, want));
+        }
+        n_checked += 1;
+    }
+    Ok(n_checked)
+}
